@@ -10,7 +10,8 @@ close_link / _link_error_cb in virtual time.
 
 Events (JSON-able):
   ['send', rid, hdr, data, exp, timeout_ms|None]   cf.send_packet(CRTPPacket(hdr, data), expected_reply=tuple(exp)[, timeout])
-  ['recv', hdr, data]      a packet arrives on the current link (ignored when there is no link)
+  ['recv', hdr, data[, rb]] a packet arrives on the current link (ignored when there is no link); it is built as the drivers
+                           do, CRTPPacket(raw_header, payload), with reserved bits rb (0..3; default: derived from the event)
   ['recvcb', hdr, data, [[rid, hdr, data, exp, timeout_ms|None], ...]]
                            a packet arrives and the port callback handling it (inside the real dispatch) sends these requests
   ['closex', {'c0': [...], 'c1': [...], 'd': [...]}]   close_link() with another thread acting inside link.close() (before /
@@ -148,8 +149,7 @@ class Run:
         from cflib.crtp.crtpstack import CRTPPacket
         cf = self.cf
         _, rid, hdr, data, exp, tmo = ev
-        pk = CRTPPacket(hdr, list(data))
-        assert pk.header == (hdr | 0x0C)
+        pk = sent_packet(hdr, data)
         self.keep.append(pk)
         self.pk_rid[id(pk)] = rid
         try:
@@ -197,7 +197,7 @@ class Run:
             self._send(ev)
         elif k == 'recv':
             if cf.link is not None:
-                self.inbox.append(CRTPPacket(ev[1], list(ev[2])))
+                self.inbox.append(received_packet(ev[1], ev[2], ev[3] if len(ev) > 3 and isinstance(ev[3], int) else None))
                 try:
                     cf.incoming.run()
                 except _Stop:
@@ -211,8 +211,8 @@ class Run:
             # _IncomingPacketHandler.run dispatch).  For the model: the answer check for the packet, THEN the sends.
             self.expanded.pop()
             if cf.link is not None:
-                _, hdr, data, follow = ev
-                pk = CRTPPacket(hdr, list(data))
+                hdr, data, follow = ev[1], ev[2], ev[3]
+                pk = received_packet(hdr, data, ev[4] if len(ev) > 4 else None)
                 port = (hdr >> 4) & 0xF
                 self.expanded.append(['recv', hdr, list(data)])
 
@@ -293,6 +293,23 @@ class Run:
         for t in self.timers:
             out += [t.status, t.deadline if t.deadline is not None else -1]
         return out
+
+
+def sent_packet(hdr, data):
+    """A request the way the library builds its packets: CRTPPacket() + set_header(port, channel) + data."""
+    from cflib.crtp.crtpstack import CRTPPacket
+    pk = CRTPPacket()
+    pk.set_header((hdr >> 4) & 0xF, hdr & 0x3)
+    pk.data = bytearray(data)
+    return pk
+
+
+def received_packet(hdr, data, reserved=None):
+    """A received packet the way the link drivers build it: CRTPPacket(raw_header_byte, payload) — with any value of the
+    two reserved bits (2-3) on the wire: `reserved` 0..3, by default derived from the event (all four values occur)."""
+    from cflib.crtp.crtpstack import CRTPPacket
+    rb = reserved if reserved is not None else (((hdr >> 4) + len(data) + sum(data)) & 3)
+    return CRTPPacket((hdr & 0xF3) | (rb << 2), list(data))
 
 
 def fresh_cf():
